@@ -65,13 +65,14 @@ def handleVerify (op : String) (a : Json) : Option Json :=
             | none => Json.mkObj [("res", "err")])
          | none => Json.mkObj [("res", "err")])
       | _ => Json.mkObj [("res", "err")])
-  | "verify" | "verify-rep" =>
+  | "verify" | "verify-rep" | "verify-hist" =>
     let W := toWorld (fld a "world") (getInt a "now_ns")
     match loadMetadata (L (getStr a "layout_text")) with
     | .ok md =>
       let keys : List (Str × Key) := (getArr a "keys").map fun k => (L (getStr k "mapkey"), toKey k)
       let dir := toDir (fld a "dir")
-      let params : List (Str × Str) := ((objPairs (fld a "params")).getD []).map fun kv => (L kv.1, L (asStr kv.2))
+      let toParams (j : Json) : List (Str × Str) := ((objPairs j).getD []).map fun kv => (L kv.1, L (asStr kv.2))
+      let params : List (Str × Str) := toParams (fld a "params")
       let rd : RunDirState :=
         if getStr a "entry" == "withdir" then
           (match getStr a "rundir_state" with
@@ -79,15 +80,22 @@ def handleVerify (op : String) (a : Json) : Option Json :=
            | _ => .ok (L (getStr a "rundir")))
         else .none
       let fs : FS := ((objPairs (fld a "fs_digests")).getD []).map fun kv => (L kv.1, L (asStr kv.2))
-      let r := verify W (getBool a "line_norm") ((getStrs a "caller_inters").map L) md keys dir
-                 (L (getStr a "step_name")) params rd fs
-      let ran := Json.arr (r.ran.map fun e => Json.str (S e.1)).toArray
-      let files := Json.arr ((sortBy (fun x y => InToto.Json.strLt x y) (r.fs.map Prod.fst)).map fun p => Json.str (S p)).toArray
-      some (match r.out with
+      let one (params : List (Str × Str)) : Json :=
+        let r := verify W (getBool a "line_norm") ((getStrs a "caller_inters").map L) md keys dir
+                   (L (getStr a "step_name")) params rd fs
+        let ran := Json.arr (r.ran.map fun e => Json.str (S e.1)).toArray
+        let files := Json.arr ((sortBy (fun x y => InToto.Json.strLt x y) (r.fs.map Prod.fst)).map fun p => Json.str (S p)).toArray
+        match r.out with
         | .ok s => Json.mkObj [("res", "ok"), ("name", Json.str (S s.name)), ("materials", artsJson s.materials),
                                ("products", artsJson s.products), ("ran", ran), ("files", files)]
         | .err e => Json.mkObj [("res", "err"), ("stage", e), ("ran", ran), ("files", files)]
-        | .panic e => Json.mkObj [("res", "panic"), ("stage", e), ("ran", ran), ("files", files)])
+        | .panic e => Json.mkObj [("res", "panic"), ("stage", e), ("ran", ran), ("files", files)]
+      if op == "verify-hist" then
+        -- a history of verifications on the same objects: the model is a pure function of its
+        -- inputs, so every element is simply the verdict for that parameter dictionary
+        some (Json.mkObj [("runs", Json.arr ((getArr a "param_list").map fun p => one (toParams p)).toArray),
+                          ("inputs_changed", Json.bool false)])
+      else some (one params)
     | _ => some (Json.mkObj [("res", "layout-unloadable")])
   | _ => none
 
